@@ -304,24 +304,55 @@ def renderer(repo, res, classes):
     fn = r.methods.get("draw_scenario")
     if fn is None:
         raise AnalysisError("draw_scenario missing")
-    pairs = []
-    for iff in ast.walk(fn):
-        if isinstance(iff, ast.If) and isinstance(iff.test, ast.Call) and call_name(iff.test) == "isinstance":
-            cls = norm(iff.test.args[1])
-            for c in ast.walk(ast.Module(body=iff.body, type_ignores=[])):
-                if isinstance(c, ast.Call) and isinstance(c.func, ast.Attribute) and c.func.attr == "draw" and len(c.args) == 2:
-                    pairs.append((cls, norm(c.args[1]), c))
-    want = {"DynamicObstacle": "DynamicObstacleParams", "StaticObstacle": "StaticObstacleParams", "EnvironmentObstacle": "EnvironmentObstacleParams", "PhantomObstacle": "PhantomObstacleParams"}
-    res.check("D-GROUP", "draw_scenario dispatches on the obstacle classes", len(pairs) >= 3, m, fn, "%d isinstance branches" % len(pairs), "obstacle kinds are not told apart", qualname="MPRenderer.draw_scenario")
-    for cls, arg, c in pairs:
-        ch = arg.split(".")
-        tn = [t for t in type_names(top.get(ch[-1])) if t in classes] if ch[-1] in top else []
-        res.check("D-GROUP", "draw_scenario: %s drawn with its own parameter group" % cls, ch[0] == "draw_params" and tn == [want.get(cls)], m, c, "isinstance(o, %s): o.draw(self, %s)" % (cls, arg), "an obstacle kind is drawn with the parameters of another kind", qualname="MPRenderer.draw_scenario")
-    loops = [n for n in walk_no_nested(fn) if isinstance(n, ast.For)]
-    ok = len(loops) == 1 and canon(loops[0].iter, ReachingDefs(fn), loops[0], ["obj"]) == "obj.obstacles"
-    res.check("D-GROUP", "draw_scenario draws every obstacle of the scenario", ok, m, loops[0] if loops else fn, "for .. in %s" % (norm(loops[0].iter) if loops else "?"), "some obstacles are never drawn", qualname="MPRenderer.draw_scenario")
-    calls = [c for c in walk_no_nested(fn) if isinstance(c, ast.Call) and isinstance(c.func, ast.Attribute) and c.func.attr == "draw" and norm(c.func.value) == "obj.lanelet_network"]
-    res.check("D-GROUP", "draw_scenario draws the lanelet network", len(calls) == 1 and norm(calls[0].args[1]) == "draw_params.lanelet_network", m, fn, "lanelet network draw calls: %s" % [norm(c) for c in calls], "the lanelet network is not drawn with its parameter group", qualname="MPRenderer.draw_scenario")
+    # decided by abstract evaluation: a scenario with one obstacle of every kind and a lanelet network is drawn, with
+    # parameters passed and with the renderer's own; every object must be drawn exactly once with the renderer itself
+    # and the parameter group of its kind (MPDrawParams field whose declared type is that kind's parameter class)
+    from ..strdom import NONE, Ev, ListV, Obj, PyFunc, Undecided, _Raise, show
+
+    want = {"DynamicObstacle": "DynamicObstacleParams", "StaticObstacle": "StaticObstacleParams", "EnvironmentObstacle": "EnvironmentObstacleParams", "PhantomObstacle": "PhantomObstacleParams", "LaneletNetwork": "LaneletNetworkParams"}
+    group_of = {}
+    for fld, ann in top.items():
+        for t in type_names(ann):
+            if t in want.values():
+                group_of.setdefault(t, []).append(fld)
+    if any(len(group_of.get(t, [])) != 1 for t in want.values()):
+        raise AnalysisError("MPDrawParams: parameter groups of the obstacle kinds not found uniquely: %s" % group_of)
+    omod = repo.mod("commonroad/scenario/obstacle.py")
+    lmod = repo.mod("commonroad/scenario/lanelet.py")
+    for passed in (True, False):
+        drawn = []
+
+        def drawer(label):
+            return PyFunc(lambda a, k, label=label: (drawn.append((label, list(a) + list(k.values()))), NONE)[1], "draw")
+
+        def params(tag):
+            return Obj(None, {f: Obj(None, {}, closed=True, label="%s.%s" % (tag, f)) for f in top}, closed=True, label=tag)
+
+        given, own = params("passed parameters"), params("renderer parameters")
+        obs = [Obj(omod.classes[cn], {"draw": drawer(cn)}, label=cn) for cn in ("StaticObstacle", "DynamicObstacle", "PhantomObstacle", "EnvironmentObstacle")]
+        net = Obj(lmod.classes["LaneletNetwork"], {"draw": drawer("LaneletNetwork")}, label="LaneletNetwork")
+        scen = Obj(None, {"obstacles": ListV(obs), "lanelet_network": net, "_lanelet_network": net}, closed=True, label="scenario")
+        me = Obj(r, {"draw_params": own}, label="renderer")
+        ev = Ev(repo)
+        label = "parameters passed" if passed else "renderer's own parameters"
+        bad = []
+        try:
+            ev.call_fn(ev.bind(fn, r, me), [scen, given if passed else NONE], {}, fn)
+            src = given if passed else own
+            for cn in want:
+                hits = [a for l, a in drawn if l == cn]
+                if len(hits) != 1:
+                    bad.append("%s is drawn %d times" % (cn, len(hits)))
+                    continue
+                a = hits[0]
+                exp = src.fields[group_of[want[cn]][0]]
+                if len(a) != 2 or a[0] is not me or a[1] is not exp:
+                    bad.append("%s is drawn with %s, expected (renderer, %s)" % (cn, [show(x) for x in a], show(exp)))
+        except _Raise as x:
+            bad.append("raises %s" % x.what)
+        except Undecided as x:
+            raise AnalysisError("MPRenderer.draw_scenario [%s]: %s" % (label, x))
+        res.check("D-GROUP", "draw_scenario [%s]: every obstacle kind and the lanelet network drawn once with the parameter group of its kind" % label, not bad, m, fn, "draw_scenario [%s]: %s" % (label, "; ".join(bad[:3])), "an obstacle kind (or the lanelet network) is not drawn, drawn twice, or drawn with the parameters of another kind", qualname="MPRenderer.draw_scenario")
 
     # --- D-NULLSAFE and D-TIME
     n_calls = 0
